@@ -116,6 +116,7 @@ def c01_progress(case, F):
         oo = F.open_ops()
         sig["open_op"] = sorted(set(F.ops[o]["call"]["op"] for o in oo))[0] if oo else None
         sig["exit_phase"] = F.main_returned
+        sig["undone_ge2"] = len(und) >= 2
         v.append((sig, witness_text(case, F, "no progress anywhere in the tree for %.0f s: %d future(s) pending, %d call(s) open, driver %s" % (
             (F.final.get("stall") or {}).get("silent_s", 0), len(und), len(oo), "in interpreter exit" if F.main_returned else "running"))))
         return v
